@@ -110,7 +110,9 @@ def one(ctx, i, tmpdir):
     in_src, out_src = min_["src"], mout["src"]
     in_tree, out_tree = ast.parse(in_src), ast.parse(out_src)
     evalmode = i % 7 == 3
-    wrap = "Optional[Union[{output_param}, str]]" if (i % 3 == 1 and not evalmode) else None
+    # (the two-copies-of-one-module cases, i % 6 == 4, would otherwise always carry a template)
+    wrap_on = (i % 3 == 1 and i % 6 != 4) or (i % 6 == 4 and (i // 6) % 2 == 0)
+    wrap = "Optional[Union[{output_param}, str]]" if (wrap_on and not evalmode) else None
     eval_values = {}
     if evalmode:
         vals = tuple(sorted("{}_zq{}".format(c, (i // 7) % 5) for c in "bac"))
